@@ -457,3 +457,40 @@ Proof.
   vm_compute. repeat split; try reflexivity; discriminate.
 Qed.
 Print Assumptions C11_bulk_lagging_head_refuted.
+
+(* ------------------------------------------------------------------ concurrent handlers of the sender *)
+(* The event bus runs every handler call in its own goroutine.  With number + push + enqueue atomic
+   (fixes/C11_sender_atomic.patch, ~f_race), for EVERY interleaving of handler starts and completions the stream
+   (sendCh) carries consecutive sequence numbers in order, the backlog is that stream pushed in order, and Range is
+   exact — i.e. the hypothesis [consec] of C11_backlog_range and the stream shape assumed by C11_converges* hold. *)
+Theorem C11_sender_atomic_exact :
+  forall fl g cap ops from to,
+  f_race fl = false -> f_range fl = false -> (N.of_nat (length ops) < n64)%N ->
+  (0 < cap <= max_make)%Z -> (0 <= from < two64)%Z -> (0 <= to < two64)%Z ->
+  let st := ss_run fl g cap ops in
+  consec 1 (ss_chan st) /\ ss_seq st = N.of_nat (length (ss_chan st)) /\
+  ss_ring st = fold_left push (ss_chan st) (new_ring cap) /\
+  range fl (ss_ring st) from to =
+    Ok (map Some (filter (in_range from to) (skipn (length (ss_chan st) - Z.to_nat cap) (ss_chan st)))).
+Proof. exact sender_atomic_exact. Qed.
+Print Assumptions C11_sender_atomic_exact.
+
+(* Open finding sender-seq-push-not-atomic (/repo HEAD, f_race): handler 1 takes number 1 and is preempted, handler 2
+   takes 2, pushes and enqueues, then handler 1 finishes.  The stream is 2,1; the ring holds 2,1; Range(3,3) returns the
+   entry with sequence 1 (outside the range) and Range(1,1) returns nothing although sequence 1 is retained. *)
+Theorem C11_sender_race_head_refuted :
+  exists ops,
+  let st := ss_run head 1 4 ops in
+  map q_seq (ss_chan st) = [2; 1]%N /\ ~ consec 1 (ss_chan st) /\
+  map (option_map q_seq) (ring_list (ss_ring st)) = [Some 2; Some 1]%N /\
+  option_map (map (option_map q_seq)) (match range head (ss_ring st) 3 3 with Ok l => Some l | _ => None end) = Some [Some 1%N] /\
+  range head (ss_ring st) 1 1 = Ok [] /\
+  (* the same interleaving with atomic handlers *)
+  map q_seq (ss_chan (ss_run repaired 1 4 ops)) = [1; 2]%N.
+Proof.
+  exists [SStart 1 (ex_sess 1 None 0) false; SStart 2 (ex_sess 2 None 0) false; SFinish 2; SFinish 1].
+  cbv zeta. split; [vm_compute; reflexivity|]. split.
+  - intros H. specialize (H 0%nat _ eq_refl). vm_compute in H. discriminate.
+  - vm_compute. repeat split; reflexivity.
+Qed.
+Print Assumptions C11_sender_race_head_refuted.
